@@ -204,6 +204,10 @@ var labelRe = regexp.MustCompile(`^([A-Za-z_#][A-Za-z0-9_#\-\.]*):([^:].*)$`)
 func resolveTarget(kind, target, pkg string) string {
 	// already fully qualified?
 	if strings.Contains(target, "/") {
+		if kind == "iface" && !strings.HasPrefix(target, "(") {
+			i := strings.LastIndex(target, ".")
+			return "(" + target[:i] + ")" + target[i:]
+		}
 		return target
 	}
 	qualify := func(name string) string {
